@@ -84,17 +84,20 @@ DT3 = ("int64", "int32", "float64")
 SPEC = {
     "quick": [
         ("3x3_3l", [(3, 3)], (0, 1, 2), DT3, "none", "bool"),
-        ("4x4_2l", [(4, 4)], (0, 1), DT3, "none", "bool"),
-        ("3x5_2l", [(3, 5)], (0, 1), DT3, "none", "bool"),
+        ("4x4_2l", [(4, 4)], (0, 1), ("int64", "float64"), "none", "bool"),
+        ("3x5_2l", [(3, 5)], (0, 1), ("int64", "float64"), "none", "bool"),
         ("lines8_3l", LINES(8), (0, 1, 2), DT3, "none", "bool"),
         ("lines7_2l", LINES(7), (0, 1), ("int64",), "all", "bool"),
-        ("small6_2l", [(2, 2), (2, 3), (3, 2)], (0, 1), DT3, "all", "bool"),
+        ("small6_2l", [(2, 2), (2, 3), (3, 2)], (0, 1), ("int64", "float64"), "all", "bool"),
         ("3x3_2l", [(3, 3)], (0, 1), ("int64", "float64"), "cellstates", "bool"),
         ("4x4_2l", [(4, 4)], (0, 1), ("int64",), "named", "bool"),
         ("3x5_2l", [(3, 5)], (0, 1), ("int64",), "named", "bool"),
     ],
 }
 SPEC["thorough"] = SPEC["quick"] + [
+    ("4x4_2l", [(4, 4)], (0, 1), ("int32",), "none", "bool"),
+    ("3x5_2l", [(3, 5)], (0, 1), ("int32",), "none", "bool"),
+    ("small6_2l", [(2, 2), (2, 3), (3, 2)], (0, 1), ("int32",), "all", "bool"),
     ("4x5_2l", [(4, 5)], (0, 1), ("int64", "float64"), "none", "bool"),
     ("5x4_2l", [(5, 4)], (0, 1), ("int64",), "none", "bool"),
     ("3x4_3l", [(3, 4)], (0, 1, 2), DT3, "none", "bool"),
